@@ -20,6 +20,13 @@ def run():
     trace = os.path.join(vlib.scratch(), "fault.ndjson")
     vlib.run_zv(zv, "fault", [], trace)
     cases, v = flow.validate(out, "fault", "FaultTrace.tla", "FaultTrace.cfg", trace, zv, timeout=3000)
+    # a text rejected before it runs is a stuttering step, for every kind of definition (NoopTrace)
+    ntrace = os.path.join(vlib.scratch(), "noop.ndjson")
+    vlib.run_zv(zv, "noop", [], ntrace)
+    ncases, nv = flow.validate(out, "noop", "NoopTrace.tla", "NoopTrace.cfg", ntrace, zv)
+    out.extra["rejected_text_cases"] = len(ncases)
+    out.extra["rejected_text_by_definition_kind"] = dict(collections.Counter(c["def"] for c in ncases.values()))
+    out.extra["rejected_text_by_variant"] = dict(collections.Counter(c["variant"] for c in ncases.values()))
     kinds = collections.Counter((c["kind"], c["out"][0]) for c in cases.values())
     judged = [i for i in cases if v[i][0] in ("ok", "bad")]
     failing = set((c["text"], c["kind"], c["failAt"]) for i, c in cases.items() if c["kind"] != "none" and v[i][0] in ("ok", "bad"))
@@ -40,13 +47,24 @@ def run():
     }
     return flow.finish(out, "fault_enumeration", cov, semflow.SEM_ASSUMPTIONS + [
         "at most 14 failure points per program; one injected failure per case",
-        "macro-expansion-time failures are not among the injected kinds",
+        "rejected texts (noop family): parse error, compile error in a nested form, macro-expansion error, jump outside a loop, "
+        "each before/after/around a (re)definition of every definitional form; the twin interpreter that never saw the rejected text is the reference",
     ])
 
 
 def replay(path):
     zv = vlib.build_zv()
     rec = json.load(open(path))
+    if rec.get("family") == "noop":
+        rp = os.path.join(vlib.scratch(), "r.ndjson")
+        open(rp, "w").write(json.dumps(rec["case"]) + "\n")
+        fresh = os.path.join(vlib.scratch(), "fresh.ndjson")
+        vlib.run_zv1(zv, "noop", ["-replay", rp], out=fresh)
+        v, _ = vlib.validate_trace("NoopTrace.tla", "NoopTrace.cfg", fresh)
+        bad = [i for i in v if v[i][0] == "bad"]
+        for i in bad:
+            print("VIOLATION property=%s replay=%s" % (PROP, path))
+        return 1 if bad else 0
     rp = os.path.join(vlib.scratch(), "r.ndjson")
     open(rp, "w").write(json.dumps(rec["case"]) + "\n")
     fresh = os.path.join(vlib.scratch(), "fresh.ndjson")
